@@ -364,9 +364,10 @@ pub fn meta(tier: Tier) -> Meta {
 
 fn replay_history(ctx: &Ctx, cons: &Consensus, rbf: bool, variant: u8, hist: &[Op], report: &mut Report, slot: &mut Option<Driver>) -> Result<Option<u64>, String> {
     // one node per worker, reset between histories; a fresh node every 400 histories
-    if slot.as_ref().map(|d| d.resets >= 400).unwrap_or(false) {
+    let period: u64 = std::env::var("VERIF_C11_REBOOT").ok().and_then(|v| v.parse().ok()).unwrap_or(400);
+    if slot.as_ref().map(|d| d.resets >= period).unwrap_or(false) {
         if let Some(d) = slot.take() {
-            d.node.shutdown();
+            d.node.destroy();
         }
     }
     if slot.is_none() {
@@ -570,7 +571,7 @@ pub fn run(ctx: &Ctx) -> Report {
             }
         }
         if let Some(d) = slot.take() {
-            d.node.shutdown();
+            d.node.destroy();
         }
     }
     report
